@@ -18,6 +18,7 @@ RULE = ("real adaptive histories of the three strategies with a vector-valued in
         "and sums of 1-D linear functions. Integrals are compared with analytic values at EVERY evaluation, the interpolant at the "
         "end at random and grid points. distinct = digest(strategy, configuration, final structure); non-trivial = >=2 refinement "
         "steps")
+RULE += (" Hostile profiles include 'fronts' (a steep front in every dimension: deep local refinement in all dimensions at once); the default coarsening version 6 is drawn in >= 40% of the dimension-wise cases.")
 REQUIRED = ["dimwise_space_integral", "dimwise_space_interpolation", "dimwise_multilinear_integral", "dimwise_multilinear_interpolation",
             "modified_linear_integral", "extsplit_multilinear_integral", "extsplit_multilinear_interpolation", "cell_multilinear_integral"]
 MIN_NONTRIVIAL = {"quick": 150, "thorough": 2000}
@@ -188,7 +189,12 @@ def run_dimwise(case, res, modified=False):
                              box_kinds=["unit", "unit", "shifted", "negative", "aniso", "dyadic", "tiny", "huge"])
     if modified:
         cfg["boundary"] = False
-    cfg["profile"] = rng.choice(["real", "real", "real", "uniform", "sparse", "ties", "hotspot", "altdim", "single"])
+    cfg["profile"] = rng.choice(["real", "real", "real", "uniform", "sparse", "ties", "hotspot", "altdim", "single", "fronts", "fronts"])
+    if rng.random() < 0.4:
+        cfg["version"] = 6          # the default coarsening version carries more weight than the alternatives
+    if cfg["profile"] == "fronts":
+        cfg["rebalancing"] = cfg["rebalancing"] and rng.random() < 0.5
+        cfg["steps"] = max(cfg["steps"], 5 if cfg["d"] <= 2 else 4)
     d, a, b = cfg["d"], cfg["a"], cfg["b"]
     res.sample = {"config": cfg, "modified_basis": modified}
     comps = [driver_component(rng, d, case["seed"], a, b)]
